@@ -45,6 +45,9 @@ def _long_elbows(rng, count):
     out = []
     for k in range(count):
         a, b = rng.randint(3, 40), rng.randint(3, 40)
+        if k < max(6, count // 25):          # a few very long, unbalanced elbows (arm lengths are unbounded in the property)
+            a, b = rng.choice([(rng.randint(3, 45), rng.randint(300, 520)), (rng.randint(300, 520), rng.randint(3, 45)),
+                               (rng.randint(200, 300), rng.randint(200, 300))])
         dxs = [rng.randint(1, 4) for _ in range(a + b)]
         s1, s2 = rng.sample(range(-64, 65), 2)
         off8 = rng.choice([0, 4, 8 * 4096, 2, 1, 8 * 17])
@@ -63,7 +66,7 @@ def _long_elbows(rng, count):
 def run(ctx):
     ctx.rule = ("G: arms 3..4 (thorough 3..6) x spacing patterns over {1,2,3,4} x slope pairs covering every orientation class "
                 "(thorough: all ordered pairs of 14 slopes) x offsets {0, 1/2, 4096}, each replayed into 4 detectors x all "
-                "options (+ Kneedle t=0 on monotone members); T: random long elbows (arms <= 40) admitted by TLC as family "
+                "options (+ Kneedle t=0 on monotone members); T: random long elbows (arms <= 40, plus a few very long unbalanced ones up to 520) admitted by TLC as family "
                 "members.  every case is non-trivial (two distinct slopes); distinct = distinct curve")
     ctx.assumptions += ["heights are multiples of 1/8 and offsets dyadic, so every curve is exactly representable in binary64",
                         "L-method refinement is run with its default limit (10); the limit is not one of the property's options",
